@@ -1,12 +1,12 @@
 package checks
 
 import (
-	"database/sql/driver"
-	"sync/atomic"
 	"context"
+	"database/sql/driver"
 	"encoding/json"
 	"fmt"
 	"strings"
+	"sync/atomic"
 
 	"github.com/formancehq/go-libs/v5/pkg/types/metadata"
 
@@ -22,9 +22,9 @@ import (
 func init() {
 	core.Register(&core.Check{
 		ID: "C09", Level: "exploration",
-		Rule: "(trace) the REAL storage InsertLog is called on every calling shape (autocommit, inside BeginTX, inside a nested savepoint, after other statements, several logs per transaction) for all 48 feature sets over a recording SQL driver: with HASH_LOGS=SYNC every INSERT INTO logs must be preceded, in the same SQL transaction, by pg_advisory_xact_lock(<ledger id>); (behaviour) exports of random SYNC ledgers are imported into fresh SYNC ledgers through the real handlers: unaltered streams must be accepted, streams in which ONE hashed field of one log (type-dependent payload field, date, idempotency key, schema version, stored hash, log order) was altered must be rejected; (chain) after concurrent writers under the scheduler the stored hashes of memstore must form one chain in id order. Distinct = (feature set, calling shape) / (tampered field, log type); non-trivial = HASH_LOGS=SYNC",
+		Rule:        "(trace) the REAL storage InsertLog is called on every calling shape (autocommit, inside BeginTX, inside a nested savepoint, after other statements, several logs per transaction) for all 48 feature sets over a recording SQL driver: with HASH_LOGS=SYNC every INSERT INTO logs must be preceded, in the same SQL transaction, by pg_advisory_xact_lock(<ledger id>); (behaviour) exports of random SYNC ledgers are imported into fresh SYNC ledgers through the real handlers: unaltered streams must be accepted, streams in which ONE hashed field of one log (type-dependent payload field, date, idempotency key, schema version, stored hash, log order) was altered must be rejected; (chain) after concurrent writers under the scheduler the stored hashes of memstore must form one chain in id order. Distinct = (feature set, calling shape) / (tampered field, log type); non-trivial = HASH_LOGS=SYNC",
 		Assumptions: []string{"the trigger set_log_hash / compute_hash and the effect of the advisory lock are Postgres' (C10, C34 not applicable); memstore's chain hash is a transliteration of migration 47's compute_hash and is only used to make import verification meaningful", seqAssume},
-		Run:  runC09,
+		Run:         runC09,
 	})
 }
 
@@ -98,6 +98,17 @@ func runC09(r *core.Run) {
 		}
 		sync := fs[features.FeatureHashLogs] == "SYNC"
 		r.Eval(fs.String()+"|"+shape, sync)
+		if c.Index < 3 {
+			var stmts []string
+			for _, s := range db.Shim.Log() {
+				t := s.SQL
+				if len(t) > 120 {
+					t = t[:120] + "..."
+				}
+				stmts = append(stmts, fmt.Sprintf("tx%d %s %s", s.TxID, s.Kind, t))
+			}
+			r.Sample(map[string]any{"loop": "trace", "features": fs.String(), "calling_shape": shape, "statements": stmts})
+		}
 		lockedTx := map[int64]bool{}
 		lockedConnAuto := false
 		want := fmt.Sprintf("pg_advisory_xact_lock(%d)", l.ID)
@@ -227,6 +238,9 @@ func runC09(r *core.Run) {
 		_ = e.CreateLedger("bad", "b2", fs)
 		imp := e.Do("POST", "/v2/bad/logs/import", []byte(strings.Join(lines, "\n")+"\n"), nil)
 		r.Eval(field+"|"+typ, true)
+		if c.Index < 2 {
+			r.Sample(map[string]any{"loop": "tamper", "tampered_field": field, "log_type": typ, "line": idx, "import_status": imp.Status, "response": string(imp.Body)})
+		}
 		r.Seen("tampered_fields", field+":"+typ)
 		r.Seen("tampered_import_status", fmt.Sprint(imp.Status))
 		if imp.Status == 500 && len(imp.Body) == 0 {
